@@ -71,6 +71,9 @@ func Verify(blob []byte, params VerifyParams) (*VerifiedBlob, error) {
 			}
 		}
 	}
+	if len(sig.Directories) == 0 {
+		return nil, errors.New("no code directory found")
+	}
 	// verify CMS signature against the first code dir
 	mdContent := sig.Directories[0].Raw
 	if sig.CMS == nil {
